@@ -9,8 +9,9 @@ Quick == Slice = "quick"
 Fri17 == 4 * 86400 + 17 * 3600
 Wed12 == 2 * 86400 + 12 * 3600
 Thu15 == 3 * 86400 + 15 * 3600
-Ends == IF Quick THEN {Fri17, Wed12} ELSE {Fri17, Wed12, Thu15}
-Effs == IF Quick THEN {3600, 5400} ELSE {3600, 5400, 7200, 9000}
+Ends == IF Quick \/ Slice = "tiny" THEN {Fri17, Wed12} ELSE {Fri17, Wed12, Thu15}
+Tiny == Slice = "tiny"
+Effs == IF Tiny THEN {5400} ELSE IF Quick THEN {3600, 5400} ELSE {3600, 5400, 7200, 9000}
 D2 == {<<>>, <<Dep(1, 0, FALSE)>>, <<Dep(1, 3600, FALSE)>>}
 D3 == {<<>>, <<Dep(1, 0, FALSE)>>, <<Dep(2, 0, FALSE)>>, <<Dep(2, 7200, FALSE)>>, <<Dep(1, 0, FALSE), Dep(2, 3600, FALSE)>>}
 HasSucc(i, d2, d3) == (\E k \in 1..Len(d2) : d2[k].p = i) \/ (\E k \in 1..Len(d3) : d3[k].p = i)
